@@ -5,7 +5,7 @@ from __future__ import annotations
 from hypothesis import strategies as st
 
 from vf import drive, env, gen
-from vf.runner import Outcome
+from vf.runner import Outcome, fail
 
 ID = "C11"
 LEVEL = "exploration"
@@ -47,7 +47,8 @@ def _ops():
         st.builds(lambda n, c, a, p: f"{n};{c};3;{a};3;{p}\n", st.sampled_from((0, 1, 7, 254, 255)), st.sampled_from((0, 7, 255)), st.sampled_from((0, 1)), st.sampled_from(("", "x"))),
     )
     present = st.builds(lambda n: f"{n};255;0;0;17;2.0\n", st.one_of(st.integers(0, 255), st.sampled_from((250, 253, 254, 255))))
-    return st.lists(st.one_of(request, request, request, present).map(lambda l: ["rx", l]), min_size=3, max_size=20)
+    install = st.one_of(st.integers(1, 254), st.sampled_from((2, 3, 5, 200, 253, 254))).map(lambda i: ["install", i])
+    return st.lists(gen.weighted((6, request.map(lambda l: ["rx", l])), (2, present.map(lambda l: ["rx", l])), (1, install)), min_size=3, max_size=20)
 
 
 def strategy(tier: str):
@@ -58,6 +59,10 @@ def strategy(tier: str):
 
 
 def enumerate_cases(tier: str):
+    for version in ("1.4", "2.2"):
+        for ids in ([], [1, 2, 3], [0, 5, 250]):
+            for listeners in (2, 3):
+                yield {"kind": "concurrent", "version": version, "ids": ids, "listeners": listeners}
     req = [["rx", "255;255;3;0;3;\n"]] * 3
     for k in range(256):
         yield {"version": "2.2" if k % 2 else "1.4", "ids": [k], "install": "direct", "ops": req}
@@ -79,7 +84,55 @@ def _wire_ids(transport) -> list[int]:
     return out
 
 
+def _run_concurrent(case: dict) -> Outcome:
+    """Two consumers of listen() each handle an id request at the same time (persistence configured): ids must differ."""
+    import asyncio
+    import os
+    import shutil
+    import tempfile
+
+    from aiomysensors.gateway import Config, Gateway
+
+    from vf.props import c13
+
+    scratch = tempfile.mkdtemp(prefix="vf-c11-", dir=c13.SCRATCH_BASE)
+
+    async def go() -> Outcome | None:
+        transport = env.RecordingTransport()
+        gateway = Gateway(transport, Config(persistence_file=os.path.join(scratch, "p.json")))
+        gateway.protocol_version = case["version"]
+        env.install_registry(gateway.nodes, {str(i): {} for i in case["ids"]})
+        transport.inbox.extend(["255;255;3;0;3;\n"] * case["listeners"])
+
+        async def consume():
+            return await env.send_nothing_and_listen(gateway)
+
+        results = await asyncio.gather(*(consume() for _ in range(case["listeners"])))
+        wire = _wire_ids(transport)
+        if any(status == "leak" for status, _v in results):
+            bad = next(v for s, v in results if s == "leak")
+            return fail(f"leak:{env.exc_sig(bad)}", f"concurrent id requests: {bad!r}")
+        dup = {i for i in wire if wire.count(i) > 1}
+        if dup:
+            return fail("id-handed-out-twice", f"{case['listeners']} concurrent id requests received ids {wire}")
+        if any(i in case["ids"] for i in wire):
+            return fail("id-not-fresh", f"concurrent id requests received {wire}, registry held {case['ids']}")
+        return None
+
+    try:
+        bad = env.run(go())
+    finally:
+        shutil.rmtree(scratch, ignore_errors=True)
+    classes = ("concurrent-listeners",)
+    if bad is not None:
+        bad.classes = classes
+        return bad
+    return Outcome(ok=True, nontrivial=True, classes=classes)
+
+
 def run_case(case: dict) -> Outcome:
+    if case.get("kind") == "concurrent":
+        return _run_concurrent(case)
     ids = sorted(set(case["ids"]))
     ops = list(case["ops"])
     hist = {"version": case["version"], "ops": ops, "listen_mode": case.get("listen_mode", "fresh"), "debug_log": case.get("debug_log", False)}
